@@ -42,7 +42,7 @@ func (c13) Info() core.Info {
 		ID:    "C13",
 		Title: "SELECT is read-only, rejected statements touch nothing, storage errors surface",
 		Level: "fault_enumeration",
-		Rule: "for every statement of a pool covering every statement kind and access path (select over empty/point/multi-point/prefix/range/full regions x {*, fields, alias filter, order, limit, order+limit, aggregate, group by}; put 1/n; remove 1/n; delete by scan, by direct removal, with limit) plus the C11/C12 write alphabets (thorough), on 3 stores, row and batch drains at B in {1,3}: one fault-free run records the n storage calls, then a sentinel error is injected at EVERY call index i<n in turn (single-fault enumeration; after a surfaced fault the statement must stop, so a second fault is unreachable). " +
+		Rule: "for every statement of a pool covering every statement kind and access path (select over empty/point/multi-point/prefix/range/multi-range/full regions x {*, fields, alias filter, order, limit, order+limit, aggregate, group by}; put 1/n; remove 1/n; delete by scan, by direct removal, with limit) plus the C11/C12 write alphabets (thorough), on 3 stores, row and batch drains at B in {1,2,3,32}: one fault-free run records the n storage calls, then a sentinel error is injected at EVERY call index i<n in turn (single-fault enumeration; after a surfaced fault the statement must stop, so a second fault is unreachable). " +
 			"Oracles: fault-free SELECT issues no mutating call; a rejected statement issues no mutating call; with a fault at call i the statement returns an error that Is the sentinel, from BuildPlan/Next/Batch, and the call log ends at call i. Non-trivial: a fault at a distinct (statement, store, mode, B, call index). Distinct: the same tuple.",
 		Assumptions: []string{"faults are injected one at a time; the injected error is a plain sentinel value compared with errors.Is", "the call counter covers every method of Storage and Cursor"},
 	}
@@ -52,6 +52,8 @@ func c13Selects() []string {
 	wheres := []string{
 		"false", "key = 'a'", "key in ('a', 'b', 'zz')", "key ^= 'a'", "key > 'a'", "key between 'a' and 'b'", "value = '1'", "true",
 		"key ^= 'a' & value != '9'", "key = 'a' | key > 'b'",
+		// several cursors / several point reads in one statement
+		"key ^= 'a' | key ^= 'b'", "(key >= 'a' & key < 'ab') | key in ('c', 'd')", "key in ('a', 'ab', 'b')", "!(key = 'a')",
 	}
 	var out []string
 	for _, w := range wheres {
@@ -66,6 +68,8 @@ func c13Selects() []string {
 			"select count(1), sum(int(value)) where "+w,
 			"select substr(key, 0, 1) as p, count(1), max(int(value)) where "+w+" group by p",
 			"select value, count(1) as c where "+w+" group by value order by c desc limit 3",
+			"select key, upper(value) as u where "+w+" order by u, key",
+			"select key, count(1) where "+w+" group by key limit 1, 1",
 		)
 	}
 	return out
@@ -153,7 +157,7 @@ func (c13) RunUnit(t core.Tier, u int, r *core.Reporter) {
 	sm := c13Stmts(t)[u]
 	for _, ps := range c13Stores {
 		for _, mode := range []string{drv.Row, drv.Batch} {
-			for _, b := range []int{1, 3} {
+			for _, b := range []int{1, 2, 3, 32} {
 				base := c13Case{Stmt: sm.q, Store: ps, Mode: mode, B: b, Fault: -1, Rej: sm.rej}
 				n := -1
 				if r.Begin(func() *core.Failure {
@@ -259,7 +263,9 @@ func c13Judge(c *c13Case) (f *core.Failure, calls int, status string) {
 	if err == nil {
 		return mk("error-swallowed", "the statement returns the storage error", fmt.Sprintf("completed without error: %s | calls: %s", out.Describe(), logStr)), calls, ""
 	}
-	if !errors.Is(err, store.ErrInjected) {
+	// "that error": the storage error itself, wrapped or not; a wrapper that keeps
+	// its text but not its identity (%v) still surfaces it
+	if !errors.Is(err, store.ErrInjected) && !strings.Contains(err.Error(), store.ErrInjected.Error()) {
 		return mk("error-replaced", "an error that Is the storage error", fmt.Sprintf("%v | calls: %s", err, logStr)), calls, ""
 	}
 	if calls != c.Fault+1 {
